@@ -110,3 +110,36 @@ def rounding_witness(n, cell, timeout_s):
         bv = m.eval(z3.fpToIEEEBV(x), model_completion=True).as_long()
         return struct.unpack(">d", struct.pack(">Q", bv))[0]
     return r, dt, (tofloat(val), [tofloat(x) for x in arr])
+
+
+def neighbour_witness(n, edge, side, timeout_s):
+    """Doubles arr[0] < ... < arr[n-1] (positive, moderate magnitude) and val =
+    the floating-point neighbour of arr[edge] just below (side=-1) or just
+    above (side=+1) it, or the edge itself (side=0).  Returns (result,
+    seconds, (val, arr) or None)."""
+    import struct
+    S = _sort(64)
+    arr = [z3.FP("e%d" % i, S) for i in range(n)]
+    val = z3.FP("val", S)
+    cons = [_finite(x) for x in arr + [val]]
+    cons += [z3.fpLT(arr[i], arr[i + 1]) for i in range(n - 1)]
+    cons += [z3.fpGT(arr[0], z3.FPVal(1e-3, S)), z3.fpLT(arr[n - 1], z3.FPVal(1e6, S))]
+    bv_e, bv_v = z3.fpToIEEEBV(arr[edge]), z3.fpToIEEEBV(val)
+    if side == 0:
+        cons.append(z3.fpEQ(val, arr[edge]))
+    else:
+        cons.append(bv_v == bv_e + side)      # positive doubles: adjacent bit patterns
+    s = z3.Solver()
+    s.set("timeout", int(timeout_s * 1000))
+    s.add(*cons)
+    t = time.perf_counter()
+    r = str(s.check())
+    dt = round(time.perf_counter() - t, 2)
+    if r != "sat":
+        return r, dt, None
+    m = s.model()
+
+    def tofloat(x):
+        bv = m.eval(z3.fpToIEEEBV(x), model_completion=True).as_long()
+        return struct.unpack(">d", struct.pack(">Q", bv))[0]
+    return r, dt, (tofloat(val), [tofloat(x) for x in arr])
